@@ -7,6 +7,7 @@ package codec
 // calling Conflicts.
 
 import (
+	"bytes"
 	"fmt"
 	"strings"
 	"testing"
@@ -370,13 +371,41 @@ func TestC18Binding(t *testing.T) {
 					}
 					continue
 				}
-				_, first := ref.EqualRows(cols[k].Kind.T, vals, cols[k].Rows)
-				own := false
-				if k < len(second) && second[k].Kind == cols[k].Kind {
-					_, own = ref.EqualRows(cols[k].Kind.T, vals, second[k].Rows)
+				// Rejected: the target must not have received ANOTHER column's data. (It may be empty,
+				// keep the first block's rows or hold its own column; the rejected block may also have
+				// changed a parameter of an inferable target before the mismatch was noticed, so that
+				// kept rows read differently - the statement does not forbid that, hence the positive
+				// test for foreign data on the encoded bytes rather than "one of the allowed contents".)
+				if len(vals) == 0 {
+					continue
 				}
-				if len(vals) != 0 && !first && !own {
-					rt.Fatalf("[%s] second block (%s) rejected, but target %d (%s) holds %d rows that are neither the first block's nor its own column", class, how, k, cols[k].Kind.T.Name, len(vals))
+				var raw proto.Buffer
+				if perr := safely(func() error {
+					if p, ok := res[k].Data.(proto.Preparable); ok {
+						if err := p.Prepare(); err != nil {
+							return err
+						}
+					}
+					res[k].Data.(interface{ EncodeColumn(*proto.Buffer) }).EncodeColumn(&raw)
+					return nil
+				}); perr != nil {
+					continue
+				}
+				for j := range second {
+					if j == k || len(second[j].Rows) == 0 {
+						continue
+					}
+					fe := &ref.Enc{NoMap: true}
+					ref.EncodeColumn(fe, second[j].Kind.T, second[j].Rows)
+					oe := &ref.Enc{NoMap: true}
+					if k < len(second) {
+						ref.EncodeColumn(oe, second[k].Kind.T, second[k].Rows)
+					}
+					f1 := &ref.Enc{NoMap: true}
+					ref.EncodeColumn(f1, cols[k].Kind.T, cols[k].Rows)
+					if bytes.Equal(raw.Buf, fe.B) && !bytes.Equal(raw.Buf, oe.B) && !bytes.Equal(raw.Buf, f1.B) && !cols[k].Kind.T.HasLC() {
+						rt.Fatalf("[%s] second block (%s) rejected, but target %d (%s) holds the data of column %d (%s)", class, how, k, cols[k].Kind.T.Name, j, second[j].Kind.T.Name)
+					}
 				}
 			}
 		case "autoresult-reinferred":
